@@ -9,6 +9,7 @@ method such as .append/.update/.loc[...]=) of every function in /repo/aquacrop i
 import ast
 import os
 
+_LIB_MODULES = {"np", "numpy", "pd", "pandas", "os", "math", "sys", "datetime", "warnings", "logging", "time", "typing"}
 MUTATING_METHODS = {"append", "extend", "insert", "pop", "remove", "clear", "update", "setdefault", "sort", "reverse", "fill", "__setattr__", "__setitem__"}
 
 
@@ -23,6 +24,7 @@ def scan_function(fn, module_names):
     fresh_locals = set()
     fresh_line = {}
     alias_of_param = {}
+    alias_of_global = {}     # local name -> module-level object it refers to (x = G[k], x = G.attr, x = G): stores through it hit shared state
     sites = []
 
     def is_copying_index(v):
@@ -36,10 +38,15 @@ def scan_function(fn, module_names):
         r = root_name(v) if isinstance(v, (ast.Name, ast.Attribute, ast.Subscript)) and not is_copying_index(v) else None
         if r is not None and (r in alias_of_param or (r in params and not (r in fresh_line and fresh_line[r] < n.lineno))):
             alias_of_param[t] = alias_of_param.get(r, r)      # NewCond = InitCond ; prof = Soil.Profile ; view slices
+            alias_of_global.pop(t, None)
+        elif r is not None and r not in params and r not in fresh_locals and (r in alias_of_global or (r in module_names and r not in _LIB_MODULES)):
+            alias_of_global[t] = alias_of_global.get(r, r)    # params = crop_params[c_name]
+            alias_of_param.pop(t, None)
         else:
             fresh_locals.add(t)
             fresh_line.setdefault(t, n.lineno)
             alias_of_param.pop(t, None)
+            alias_of_global.pop(t, None)
     def classify(target):
         r = root_name(target)
         if r is None:
@@ -48,6 +55,8 @@ def scan_function(fn, module_names):
             return "self"
         if r in alias_of_param:
             return "param:" + alias_of_param[r]
+        if r in alias_of_global:
+            return "global:" + alias_of_global[r]
         if r in params and r in fresh_line and fresh_line[r] < getattr(target, "lineno", 0):
             return "local"          # parameter name re-bound to a fresh object (x = x.copy()) before this store
         if r in params:
